@@ -379,6 +379,8 @@ def check_C04(tr):
     bad = []
     c = tr.case
     bad += check_sequential(tr) + check_ks_events(tr) + check_stuck(tr)
+    # "yields exactly what the wrapped sequential iterator would yield": nothing from behind the iterator's first None
+    bad += [b for b in check_fidelity(tr) if "beyond the source" in b or "not an element" in b]
     if c.has_op("skip", "get") or (c.is_iter() and not c.fused()):
         return bad
     pulls = [o for o in tr.pulls() if o.slot == 0]
@@ -731,6 +733,12 @@ def check_C11(tr):
                 if p.slot == 0 and p.call > oi.ret and tr.deliveries(p):
                     bad.append("length 0 / No reported at line %d, but the pull called at line %d delivered" % (oi.ret, p.call))
                     break
+    # (e) `Maybe` / `None` only for sources of unknown size: a wrapped iterator that reported an exact size is of known size
+    if c.is_iter() and (c.hint == "exact" or c.hint.startswith("fixed")):
+        for (line, v, oi) in reports:
+            if v is None:
+                bad.append("the source reported an exact size, but the query at line %d answers `%s`" % (oi.ret, " ".join(oi.rtoks)))
+                break
     # (d) always No / 0 after a single or one-shot chunk pull has reported the end
     for p in tr.pulls():
         if p.slot == 0 and p.op in ("next", "nextv", "chunk") and p.ret is not None and saw_end(p) and not (p.op == "chunk" and p.n == 0):
